@@ -203,16 +203,16 @@ func (tk *vfTokens) urlString(rt *rapid.T) (string, string) {
 	default: // unparseable
 		h := tk.host(rt)
 		return rapid.SampledFrom([]string{
-			scheme + "://[" + h,              // missing ']'
+			scheme + "://[" + h,                          // missing ']'
 			scheme + "://" + h + ":" + port + ":" + port, // port twice
-			scheme + "://" + h + ":x" + port, // non-numeric port
-			"://" + h + ":" + port,           // missing scheme
-			scheme + "://" + h + "/%zz",      // bad escape
-			scheme + "://" + h + "\x7f/",      // control character
-			" " + scheme + "://" + h,         // leading blank
-			h + " :" + port,                  // blank inside
-			"1" + h + ":" + port,             // scheme cannot start with a digit
-			scheme + "://" + h + "%zz:" + port, // bad escape in host
+			scheme + "://" + h + ":x" + port,             // non-numeric port
+			"://" + h + ":" + port,                       // missing scheme
+			scheme + "://" + h + "/%zz",                  // bad escape
+			scheme + "://" + h + "\x7f/",                 // control character
+			" " + scheme + "://" + h,                     // leading blank
+			h + " :" + port,                              // blank inside
+			"1" + h + ":" + port,                         // scheme cannot start with a digit
+			scheme + "://" + h + "%zz:" + port,           // bad escape in host
 		}).Draw(rt, "badURL"), "unparseable"
 	}
 }
@@ -352,9 +352,9 @@ type vfChain struct {
 	kinds    []string // outermost first
 	descr    []string // outermost first
 	tokens   *vfTokens
-	bearing  bool // some node carries an address
-	underOp  bool // an address-bearing node sits below an OpError
-	embedded bool // a DNS cause text embeds socket addresses
+	bearing  bool     // some node carries an address
+	underOp  bool     // an address-bearing node sits below an OpError
+	embedded bool     // a DNS cause text embeds socket addresses
 	urlForms []string // forms of the URL texts of the url.Error nodes
 }
 
@@ -826,9 +826,10 @@ func (tk *vfTokens) loop4(rt *rapid.T) net.IP {
 }
 
 type vfReal struct {
-	kind string
-	err  error
-	note string
+	kind     string
+	err      error
+	note     string
+	urlForms []string
 }
 
 // vfRealError performs one real, offline, promptly failing network call on
@@ -836,7 +837,7 @@ type vfReal struct {
 func vfRealError(rt *rapid.T, tk *vfTokens) vfReal {
 	kinds := []string{"dial-loopback-closed", "dial-missing-port", "dial-invalid-port", "dial-unknown-service", "dial-bad-network",
 		"listen-nonlocal", "listen-missing-port", "dial-unresolvable-offline", "resolver-socket-error", "dial-via-resolver-socket-error",
-		"dial-nonlocal-ip4", "dial-nonlocal-ip6", "parse", "lookupaddr", "http-get", "resolve-addr"}
+		"dial-nonlocal-ip4", "dial-nonlocal-ip6", "parse", "lookupaddr", "http-get", "resolve-addr", "http-urlforms", "url-parse", "http-urlforms"}
 	kind := rapid.SampledFrom(kinds).Draw(rt, "realKind")
 	vfSlowMu.Lock()
 	slow := vfSlowKind[kind]
@@ -864,6 +865,7 @@ func vfRealError(rt *rapid.T, tk *vfTokens) vfReal {
 	}
 	t0 := time.Now()
 	var err error
+	var urlForms []string
 	note := ""
 	switch kind {
 	case "dial-loopback-closed":
@@ -975,6 +977,44 @@ func vfRealError(rt *rapid.T, tk *vfTokens) vfReal {
 		err = e
 	case "resolve-addr":
 		_, err = net.ResolveTCPAddr("tcp", tk.ip6(rt).String())
+	case "http-urlforms":
+		// net/http on every URL form.  Whatever host the URL names, the transport
+		// connects to a closed port on a secret loopback literal, so nothing is
+		// resolved and the call fails at once (scheme-less, opaque and unparseable
+		// strings fail before any dial).
+		closed := net.JoinHostPort(tk.loop4(rt).String(), port)
+		cl := &http.Client{Timeout: 400 * time.Millisecond, Transport: &http.Transport{DisableKeepAlives: true, Proxy: nil,
+			DialContext: func(ctx context.Context, network, _ string) (net.Conn, error) {
+				return (&net.Dialer{Timeout: 250 * time.Millisecond}).DialContext(ctx, network, closed)
+			}}}
+		u, form := tk.urlString(rt)
+		urlForms = append(urlForms, form)
+		var resp *http.Response
+		var e error
+		switch rapid.SampledFrom([]string{"Get", "Post", "Head", "Do"}).Draw(rt, "httpMethod") {
+		case "Get":
+			resp, e = cl.Get(u)
+		case "Post":
+			resp, e = cl.Post(u, "application/octet-stream", strings.NewReader("x"))
+		case "Head":
+			resp, e = cl.Head(u)
+		default:
+			var req *http.Request
+			if req, e = http.NewRequest(rapid.SampledFrom([]string{"GET", "POST", "CONNECT", "PUT"}).Draw(rt, "doMethod"), u, nil); e == nil {
+				resp, e = cl.Do(req)
+			}
+		}
+		if e == nil && resp != nil {
+			resp.Body.Close()
+		}
+		err = e
+	case "url-parse":
+		u, form := tk.urlString(rt)
+		urlForms = append(urlForms, form)
+		_, err = url.Parse(u)
+		if err == nil {
+			_, err = url.ParseRequestURI(u)
+		}
 	}
 	if el := time.Since(t0); el > vfSlowLimit {
 		vfSlowMu.Lock()
@@ -982,7 +1022,7 @@ func vfRealError(rt *rapid.T, tk *vfTokens) vfReal {
 		vfSlowMu.Unlock()
 		note = fmt.Sprintf("slow (%v): source disabled for the rest of the process", el.Round(time.Millisecond))
 	}
-	return vfReal{kind: kind, err: err, note: note}
+	return vfReal{kind: kind, err: err, note: note, urlForms: urlForms}
 }
 
 // addrHost: a secret host part (name, IPv4 or bracketed IPv6) for "host:port".
@@ -1023,9 +1063,10 @@ func vfChainInfo(err error) (kinds []string, underOp bool) {
 
 func TestVerifC20Real(t *testing.T) {
 	c := ev.For("C20")
-	c.Rule("real: one real call per case on generated literals — Dial to a closed 127.a.b.c port, Dial/Listen with missing or invalid port, unknown service, bad network, Listen on a non-local literal, names the Go resolver rejects offline (.onion, invalid characters, broken literals, over-long label), a Resolver whose exchange fails at socket level on loopback (DNSError.Err embeds 'read udp a->b'), Dial to a non-local literal, ParseCIDR/ParseMAC/ResolveIPAddr, LookupAddr, http.Get — optionally wrapped again in OpError / url.Error / Errorf(%w); same two oracles as 'tree'; non-trivial = chain of depth >= 2 with an address-bearing node below an OpError; a call that unexpectedly succeeds or takes > 150 ms is skipped/disabled, never a verdict")
+	c.Rule("real: one real call per case on generated literals — Dial to a closed 127.a.b.c port, Dial/Listen with missing or invalid port, unknown service, bad network, Listen on a non-local literal, names the Go resolver rejects offline (.onion, invalid characters, broken literals, over-long label), a Resolver whose exchange fails at socket level on loopback (DNSError.Err embeds 'read udp a->b'), Dial to a non-local literal, ParseCIDR/ParseMAC/ResolveIPAddr, LookupAddr, http.Get, http Get/Post/Head/Do and url.Parse on URL texts of all forms of 'tree' (the transport connects to a closed loopback port whatever the URL names; scheme-less, opaque and unparseable texts fail before any dial) — optionally wrapped again in OpError / url.Error / Errorf(%w); same two oracles as 'tree'; non-trivial = chain of depth >= 2 with an address-bearing node below an OpError; a call that unexpectedly succeeds or takes > 150 ms is skipped/disabled, never a verdict")
 	c.Assume("real-error secrets: the generated literals, plus the host part of DNSError.Server when the configured resolver address appears in the error")
 	c.Floor("real-nontrivial/real", 0.15)
+	c.Floor("real-"+vfURLSchemelessName+"/real", 0.01)
 	vfTempLogDir(t)
 	rapid.Check(t, func(rt *rapid.T) {
 		tk := &vfTokens{}
@@ -1053,6 +1094,7 @@ func TestVerifC20Real(t *testing.T) {
 		if re.note != "" {
 			cls = append(cls, "real-slow-call")
 		}
+		cls = append(cls, vfURLClasses("real", append(re.urlForms, ch.urlForms...))...)
 		var de *net.DNSError
 		if errors.As(ch.err, &de) && strings.Contains(de.Err, "->") {
 			cls = append(cls, "real-dns-embedded-socket-error")
